@@ -879,10 +879,28 @@ theorem leadQ_of_q3_prefix (s : List Char) (h : q3.isPrefixOf s = true) : 3 ≤ 
 
 theorem lexTriple_q3 : lexTriple q3 = some ([], []) := by decide
 
+/-- the table the proofs of this file were made for -/
+def docEscapesModelled : List (Char × List Char) :=
+  [('\\', ['\\', '\\']),
+   (Char.ofNat 0, ['\\', 'x', '0', '0']),
+   ('\r', ['\\', 'r']),
+   (Char.ofNat 0x0b, ['\\', 'x', '0', 'b']),
+   (Char.ofNat 0x0c, ['\\', 'x', '0', 'c']),
+   (Char.ofNat 0x1c, ['\\', 'x', '1', 'c']),
+   (Char.ofNat 0x1d, ['\\', 'x', '1', 'd']),
+   (Char.ofNat 0x1e, ['\\', 'x', '1', 'e']),
+   (Char.ofNat 0x85, ['\\', 'x', '8', '5']),
+   (Char.ofNat 0x2028, ['\\', 'u', '2', '0', '2', '8']),
+   (Char.ofNat 0x2029, ['\\', 'u', '2', '0', '2', '9'])]
+
+/-- the escape table of the code (regenerated on every run) is the one modelled -/
+theorem docEscapes_eq : docEscapes = docEscapesModelled := by decide +kernel
+
 /-- every entry of the escape table is read back as the character it stands for -/
 theorem lex_table (p : Char × List Char) (hp : p ∈ docEscapes) (rest : List Char) :
     lexTriple (p.2 ++ rest) = consVal p.1 (lexTriple rest) ∧ p.1 ≠ '"' ∧ p.2.head? = some '\\' := by
-  simp only [docEscapes, List.mem_cons, List.not_mem_nil, or_false] at hp
+  rw [docEscapes_eq] at hp
+  simp only [docEscapesModelled, List.mem_cons, List.not_mem_nil, or_false] at hp
   rcases hp with rfl | rfl | rfl | rfl | rfl | rfl | rfl | rfl | rfl | rfl | rfl <;>
     refine ⟨?_, by decide, rfl⟩ <;>
     (simp only [List.cons_append, List.nil_append]
@@ -903,7 +921,7 @@ theorem lookup_mem {α β : Type} [BEq α] [LawfulBEq α] (l : List (α × β)) 
     · exact List.mem_cons_of_mem _ (ih h)
 
 theorem lookup_none_backslash (c : Char) (h : docEscapes.lookup c = none) : c ≠ '\\' := by
-  intro e; subst e; simp [docEscapes, List.lookup] at h
+  intro e; subst e; rw [docEscapes_eq] at h; simp [docEscapesModelled, List.lookup] at h
 
 /-- an escaped character (not a double quote) is read back as itself, and its escape does not
 start with a double quote -/
